@@ -168,10 +168,10 @@ def operand_status(kind, v):
     if kind == 'csr':
         if not isinstance(v, int) or isinstance(v, bool):
             return REJECT, None
-        if 0 <= v <= 0x7ff:
-            return ACCEPT, v
-        if -0x800 <= v <= 0xfff:
-            return UNSPEC, v & 0xfff      # 0x800..0xfff, or the same field value written as a negative
+        if 0 <= v <= 0xfff:
+            return ACCEPT, v              # a CSR number is a 12-bit address: cycle is 0xc00, mhartid 0xf14
+        if -0x800 <= v < 0:
+            return UNSPEC, v & 0xfff      # the same field value written as a negative (what older versions required)
         return REJECT, None
     if kind == 'upper':
         if not isinstance(v, int) or isinstance(v, bool):
